@@ -1,4 +1,4 @@
-CONSTANTS Tables = {"a", "b"}  Cached = {"a", "b"}  Updatable = {"a", "b"}  Bulk = {"a", "b"}  BulkFills = {}  MaxId = 2  MaxRets = 2  MaxDepth = 4  DeepCopy = FALSE
+CONSTANTS Tables = {"a", "b"}  Cached = {"a", "b"}  Updatable = {"a", "b"}  Bulk = {"a", "b"}  BulkFills = {}  MaxId = 2  MaxRets = 2  MaxDepth = 4  DeepCopy = TRUE
 CONSTANT Pops <- PopsSelf
 INIT InitAll
 NEXT GenNextAll
